@@ -6,6 +6,7 @@ import (
 	"go/constant"
 	"go/token"
 	"go/types"
+	"golang.org/x/tools/go/ssa"
 	"math/big"
 	"sort"
 	"strings"
@@ -298,5 +299,97 @@ func typedRangeCheck(info *types.Info, e ast.Expr) string {
 		return typeRange(info.TypeOf(e))
 	}
 	eval(e)
+	return bad
+}
+
+// ssaRangeCheck is typedRangeCheck on SSA: interval arithmetic over the definition of v (locals are followed through
+// their single assignments by construction); it reports the first operator whose mathematical result can leave the range
+// of its static type, or a narrowing conversion of a value that may not fit a type of fewer than 31 bits.
+func ssaRangeCheck(v ssa.Value) string {
+	bad := ""
+	var eval func(v ssa.Value, depth int) (ival, bool)
+	eval = func(v ssa.Value, depth int) (ival, bool) {
+		if depth > 20 {
+			return typeRange(v.Type())
+		}
+		switch x := v.(type) {
+		case *ssa.Const:
+			if x.Value != nil && x.Value.Kind() == constant.Int {
+				if bi, ok := new(big.Int).SetString(x.Value.ExactString(), 10); ok {
+					return ival{bi, bi}, true
+				}
+			}
+		case *ssa.ChangeType:
+			return eval(x.X, depth+1)
+		case *ssa.Convert:
+			in, ok := eval(x.X, depth+1)
+			tr, tok := typeRange(x.Type())
+			if !ok || !tok {
+				return tr, tok
+			}
+			if in.lo.Cmp(tr.lo) < 0 || in.hi.Cmp(tr.hi) > 0 {
+				if bad == "" && tr.hi.BitLen() < 31 {
+					bad = fmt.Sprintf("conversion to %s may truncate (operand range %s..%s)", x.Type(), in.lo, in.hi)
+				}
+				return tr, true
+			}
+			return in, true
+		case *ssa.Call:
+			if b, ok := x.Call.Value.(*ssa.Builtin); ok && (b.Name() == "len" || b.Name() == "cap") {
+				return ival{big.NewInt(0), new(big.Int).Lsh(big.NewInt(1), 31)}, true
+			}
+		case *ssa.Phi:
+			var lo, hi *big.Int
+			for _, e := range x.Edges {
+				r, ok := eval(e, depth+1)
+				if !ok {
+					return typeRange(v.Type())
+				}
+				if lo == nil || r.lo.Cmp(lo) < 0 {
+					lo = r.lo
+				}
+				if hi == nil || r.hi.Cmp(hi) > 0 {
+					hi = r.hi
+				}
+			}
+			if lo != nil {
+				return ival{lo, hi}, true
+			}
+		case *ssa.BinOp:
+			a, ok1 := eval(x.X, depth+1)
+			b, ok2 := eval(x.Y, depth+1)
+			if !ok1 || !ok2 {
+				return typeRange(v.Type())
+			}
+			var lo, hi *big.Int
+			switch x.Op {
+			case token.ADD:
+				lo, hi = new(big.Int).Add(a.lo, b.lo), new(big.Int).Add(a.hi, b.hi)
+			case token.SUB:
+				lo, hi = new(big.Int).Sub(a.lo, b.hi), new(big.Int).Sub(a.hi, b.lo)
+			case token.MUL:
+				cs := []*big.Int{new(big.Int).Mul(a.lo, b.lo), new(big.Int).Mul(a.lo, b.hi), new(big.Int).Mul(a.hi, b.lo), new(big.Int).Mul(a.hi, b.hi)}
+				lo, hi = cs[0], cs[0]
+				for _, c := range cs[1:] {
+					if c.Cmp(lo) < 0 {
+						lo = c
+					}
+					if c.Cmp(hi) > 0 {
+						hi = c
+					}
+				}
+			default:
+				return typeRange(v.Type())
+			}
+			if tr, ok := typeRange(v.Type()); ok {
+				if (lo.Cmp(tr.lo) < 0 || hi.Cmp(tr.hi) > 0) && bad == "" {
+					bad = fmt.Sprintf("%s %s %s is evaluated in %s but ranges over %s..%s", role(plain, x.X), x.Op, role(plain, x.Y), v.Type(), lo, hi)
+				}
+			}
+			return ival{lo, hi}, true
+		}
+		return typeRange(v.Type())
+	}
+	eval(v, 0)
 	return bad
 }
